@@ -114,6 +114,8 @@ def run(rep):
     rep.guard(c05.e4, rep, w)     # a range being iterated is never rewritten (shared immutable values)
     import c13
     rep.guard(c13.u5, rep, w)     # the range a loop iterates is the one written: a cache hit has exactly the requested bounds, in that order
+    import c01
+    rep.guard(c01.r2, rep, w)     # what a loop remembers between steps (an element class, a one-character string) is rooted or recomputed: an address compared after its object was reclaimed matches another object
 
 
 def q1(rep, w):
